@@ -462,7 +462,12 @@ func runScenario(r *rig.Rig, w *world, si int, sc scenario, seed int64, idle tim
 		p := r.P.PlayerByName(name)
 		return p != nil && p.CurrentServer() != nil
 	}) {
-		return nil, "player never got a current server"
+		// not a verdict on relaying: say what the rig saw and move on
+		p := r.P.PlayerByName(name)
+		c.Timeout = 200 * time.Millisecond
+		pk, rerr := c.ReadPacket()
+		return nil, fmt.Sprintf("player never got a current server (registered=%v active=%v, client next read: %v %v)",
+			p != nil, p != nil && p.Active(), pk, rerr)
 	}
 	if got := c.Threshold(); got != cthr {
 		return nil, fmt.Sprintf("client hop threshold is %d, scenario wants %d", got, cthr)
